@@ -319,8 +319,19 @@ fn fault_run<Q: Queue>(case: &Case, stats: &mut Stats) -> Result<bool, Failure> 
         let _ = catch_unwind(AssertUnwindSafe(move || drop(it)));
     }
     let (live, dd) = tracking_report();
+    let dead = dead_uses();
     set_tracking(false);
     let kind = Q::NAME;
+    if dead > 0 {
+        return Err(Failure {
+            group: Group::Panic,
+            clause: "dead_value_used",
+            step: 0,
+            op: "history",
+            detail: format!("user callbacks (cmp/hash/eq) were handed {} item/priority values whose instance had already been dropped (stale memory read)", dead),
+            kind,
+        });
+    }
     if dd > 0 {
         return Err(Failure { group: Group::Panic, clause: "double_drop", step: 0, op: "history", detail: format!("{} item/priority instances were dropped twice", dd), kind });
     }
